@@ -777,7 +777,7 @@ OPNMIDI_EXPORT void opn2_positionSeek(struct OPN2_MIDIPlayer *device, double sec
     MidiPlayer *play = GET_MIDI_PLAYER(device);
     assert(play);
     play->realTime_panic();
-    play->m_setup.delay = play->m_sequencer->seek(seconds, play->m_setup.mindelay);
+    play->m_setup.delay = play->m_sequencer->seek(seconds, play->m_setup.mindelay) / play->m_sequencer->getTempoMultiplier();
     play->m_setup.carry = 0.0;
 #else
     ADL_UNUSED(device);
